@@ -14,12 +14,14 @@ import (
 // Effect analysis (analysis E of DESIGN.md).
 //
 // Tags name memory relative to the function being analysed:
-//   "L"        an object allocated in the current activation (or returned fresh by a callee)
-//   "P<i>"     the object parameter i refers to directly (pointee, backing array, map, boxed value)
-//   "P<i>*"    any object reachable from that one through stored references (any depth)
-//   "FV<i>", "FV<i>*"  the same for captured variables of closures
-//   "G:<name>" a package-level variable or anything reachable from it
-//   "X:<why>"  memory the analysis cannot attribute
+//
+//	"L"        an object allocated in the current activation (or returned fresh by a callee)
+//	"P<i>"     the object parameter i refers to directly (pointee, backing array, map, boxed value)
+//	"P<i>*"    any object reachable from that one through stored references (any depth)
+//	"FV<i>", "FV<i>*"  the same for captured variables of closures
+//	"G:<name>" a package-level variable or anything reachable from it
+//	"X:<why>"  memory the analysis cannot attribute
+//
 // origin(v)    = the objects v may refer to directly;
 // reachFrom(v) = the objects reachable from those through references stored in them (flattened).
 // A write through an address a modifies origin(a).
@@ -216,6 +218,66 @@ func localUses(root ssa.Value, localHolder func(addr ssa.Value) bool) (calls []c
 	return
 }
 
+// scalarCell: addr is the cell of a local variable that is only assigned directly in its own function (closures that
+// capture it only read it, its address goes nowhere else); returns the assigned values.
+func scalarCell(addr ssa.Value) ([]ssa.Value, bool) {
+	al, ok := addr.(*ssa.Alloc)
+	if !ok {
+		return nil, false
+	}
+	var vals []ssa.Value
+	for _, r := range referrers(al) {
+		switch x := r.(type) {
+		case *ssa.Store:
+			if x.Addr != ssa.Value(al) {
+				return nil, false
+			}
+			vals = append(vals, x.Val)
+		case *ssa.UnOp, *ssa.DebugRef:
+		case *ssa.MakeClosure:
+			cf, ok := x.Fn.(*ssa.Function)
+			if !ok {
+				return nil, false
+			}
+			for k, b := range x.Bindings {
+				if b != ssa.Value(al) {
+					continue
+				}
+				if k >= len(cf.FreeVars) || !readOnlyCapture(cf.FreeVars[k], 0) {
+					return nil, false
+				}
+			}
+		default:
+			return nil, false
+		}
+	}
+	return vals, true
+}
+
+func readOnlyCapture(fv ssa.Value, depth int) bool {
+	if depth > 4 {
+		return false
+	}
+	for _, r := range referrers(fv) {
+		switch x := r.(type) {
+		case *ssa.UnOp, *ssa.DebugRef:
+		case *ssa.MakeClosure:
+			cf, ok := x.Fn.(*ssa.Function)
+			if !ok {
+				return false
+			}
+			for k, b := range x.Bindings {
+				if b == fv && (k >= len(cf.FreeVars) || !readOnlyCapture(cf.FreeVars[k], depth+1)) {
+					return false
+				}
+			}
+		default:
+			return false
+		}
+	}
+	return true
+}
+
 type originCtx struct {
 	e      *effects
 	fn     *ssa.Function
@@ -223,6 +285,10 @@ type originCtx struct {
 	memoR  map[ssa.Value]tagset
 	stackO map[ssa.Value]bool
 	stackR map[ssa.Value]bool
+}
+
+func (e *effects) newOriginCtx(fn *ssa.Function) *originCtx {
+	return &originCtx{e: e, fn: fn, memoO: map[ssa.Value]tagset{}, memoR: map[ssa.Value]tagset{}, stackO: map[ssa.Value]bool{}, stackR: map[ssa.Value]bool{}}
 }
 
 func (oc *originCtx) paramTag(p *ssa.Parameter) string {
@@ -305,7 +371,14 @@ func (oc *originCtx) origin(v ssa.Value) tagset {
 	case *ssa.UnOp:
 		if x.Op == token.MUL {
 			if isRefType(x.Type()) {
-				res.add(oc.reachFrom(x.X))
+				if vals, ok := scalarCell(x.X); ok {
+					// a variable cell (go/ssa heap-allocates every captured variable): exactly what was assigned
+					for _, sv := range vals {
+						res.add(oc.origin(sv))
+					}
+				} else {
+					res.add(oc.reachFrom(x.X))
+				}
 			}
 		} else if x.Op == token.ARROW {
 			res["X:received from a channel"] = true
@@ -893,7 +966,7 @@ func (e *effects) globalMayContain(tag string, loc types.Type) bool {
 }
 
 func (e *effects) analyse(fn *ssa.Function, s *fnSummary) bool {
-	oc := &originCtx{e: e, fn: fn, memoO: map[ssa.Value]tagset{}, memoR: map[ssa.Value]tagset{}, stackO: map[ssa.Value]bool{}, stackR: map[ssa.Value]bool{}}
+	oc := e.newOriginCtx(fn)
 	changed := false
 	s.Writes = nil
 	var lastCallee *ssa.Function
